@@ -16,6 +16,8 @@ fn main() {
             "C02" => vh::c02::check(),
             "C03" => vh::c01::check("C03"),
             "C04" => vh::c04::check(),
+            "C05" => vh::c05::check(),
+            "C06" => vh::c06::check(),
             "C07" => vh::c07::check("C07"),
             "C08" => vh::c07::check("C08"),
             "C09" => vh::c09::check(),
@@ -29,6 +31,8 @@ fn main() {
                 "c04" => vh::c04::child(idx),
                 "c09s" => vh::c09::child_s(idx),
                 "c10" => vh::c10::child(idx),
+                "c06s" => vh::c06::child_s(idx),
+                "c05s" => vh::c05::child_s(idx),
                 _ => usage(),
             }
             0
@@ -44,6 +48,8 @@ fn main() {
                 "c09h" | "c09s" => vh::c09::replay(r),
                 "c10" => vh::c10::replay(r),
                 "c07" => vh::c07::replay(r),
+                "c05" | "c05s" => vh::c05::replay(r),
+                "c06h" | "c06s" => vh::c06::replay(r),
                 _ => usage(),
             }
         }
